@@ -527,7 +527,8 @@ pub fn print_case(run: usize, p: &Problem, dir: &str) -> Value {
         let tok = |k: usize| -> f64 { lr.as_ref().and_then(|r| r.get(k)).and_then(|x| x.parse::<f64>().ok()).unwrap_or(f64::NAN) };
         let band = |v: f64| -> (Value, Value) { let a = 6e-5 * v.abs() + 1e-300; (fj(v - a), fj(v + a)) };
         let band2 = |v: f64| -> (Value, Value) { let a = 6e-3 * v.abs() + 1e-300; (fj(v - a), fj(v + a)) };
-        let infeas = sol.obj_val.is_nan();
+        // (infeasibility verdicts report NaN objectives; for every other status the last row's costs are the solution's)
+        let infeas = STATUS_NAMES[sol.status as usize].contains("Infeasible");
         json!({"ev": "PrintCase", "run": run,
             "same_stream": mask_time(&b1) == mask_time(&b2), "same_file": mask_time(&b1) == mask_time(&b3),
             "same_short_stream": mask_time(&b1) == mask_time(&b7),
@@ -547,6 +548,8 @@ pub fn print_case(run: usize, p: &Problem, dir: &str) -> Value {
                      "pcost": fj(tok(1)), "dcost": fj(tok(2)), "pres": fj(tok(4)), "dres": fj(tok(5)),
                      "gap": fj(tok(3)), "gap_lo": band2(f64::min(s1.info.gap_abs, s1.info.gap_rel)).0, "gap_hi": band2(f64::min(s1.info.gap_abs, s1.info.gap_rel)).1,
                      "infeas": infeas,
+                     "step_dashes": lr.as_ref().and_then(|r| r.last()).map(|x| x.starts_with("--")).unwrap_or(false),
+                     "step": fj(tok(8)), "step_lo": band2(s1.info.step_length).0, "step_hi": band2(s1.info.step_length).1,
                      "pcost_lo": band(sol.obj_val).0, "pcost_hi": band(sol.obj_val).1,
                      "dcost_lo": band(sol.obj_val_dual).0, "dcost_hi": band(sol.obj_val_dual).1,
                      "pres_lo": band2(sol.r_prim).0, "pres_hi": band2(sol.r_prim).1,
